@@ -696,26 +696,47 @@ func replay(repro map[string]any) (string, bool) {
 	inst, _ := repro["inst"].(string)
 	kind, _ := repro["kind"].(string)
 	if kind == "bool" {
-		g := example.VerifBoolParser()
+		// the expression tree is not part of the repro: the replay decides by the two differential
+		// oracles (optimizer on = off; rows of one table through Func.Eval = fresh stacks, table unchanged)
 		var out string
+		var tts []uint8
+		fails := false
 		for _, opt := range []bool{true, false} {
 			gg := newBool([4]bool{true, true, true, true}, opt, true)
 			f, _, err := gg.Generate(src, "a", "b", "c")
 			if err != nil {
 				out += fmt.Sprintf("opt=%v: %v; ", opt, err)
+				fails = true
 				continue
 			}
-			var tt uint8
+			var tt, tt2 uint8
+			var tab [24]bool
+			for m := 0; m < 8; m++ {
+				tab[m*3], tab[m*3+1], tab[m*3+2] = m&1 != 0, m&2 != 0, m&4 != 0
+			}
+			pristine := tab
 			for m := 0; m < 8; m++ {
 				r, _ := f(funcGen.NewStack(m&1 != 0, m&2 != 0, m&4 != 0))
 				if r {
 					tt |= 1 << m
 				}
 			}
-			out += fmt.Sprintf("opt=%v: %08b; ", opt, tt)
+			for m := 0; m < 8; m++ {
+				r, _ := f.Eval(tab[m*3 : m*3+3]...)
+				if r {
+					tt2 |= 1 << m
+				}
+			}
+			tts = append(tts, tt)
+			out += fmt.Sprintf("opt=%v: %08b, through Func.Eval on rows of one table: %08b (table unchanged: %v); ", opt, tt, tt2, tab == pristine)
+			if tt2 != tt || tab != pristine {
+				fails = true
+			}
 		}
-		_ = g
-		return inst + ": " + out, true
+		if len(tts) == 2 && tts[0] != tts[1] {
+			fails = true
+		}
+		return inst + ": " + out + "(a truth table that is wrong with and without the optimizer alike is decided by re-running the check, which has the expression tree)", fails
 	}
 	a, _ := repro["a"].(float64)
 	b, _ := repro["b"].(float64)
